@@ -20,8 +20,12 @@
                      16 FWWriteFail 17 FWDisp (tree | nothing = HOther) 18 FWSid 19 FWCaps 20 FWErrCb 21 FWEvSet 22 FWDie e
                      23 FWBcast 24 FWClose 25 FWExit
              mpc: VL [VN 0..8] | VL [VN 9; r] | VL [VN 10; r]   r = VL [] (normal) | VL [VN err]
-             wpc: 0 WNot 1 WTop 2 WGot 3 WClr 4 WRdB 5 WFr 6 WOk0 7 WOk1 8 WErr0 9 WSet 10 WRaised 11 WClosing 12 WExiting 13 WDone *)
-From NC Require Import Model.Base Model.Caps Model.Writer Model.Negotiate Model.NegotiateSched.
+             wpc: 0 WNot 1 WTop 2 WGot 3 WClr 4 WRdB 5 WFr 6 WOk0 7 WOk1 8 WErr0 9 WSet 10 WRaised 11 WClosing 12 WExiting 13 WDone
+     fn 7: hello_wait [VN entry; pos; kw; mp; cfg]  (Model/HelloWait.v, the deadline of the wait for the server hello)
+             entry: 0 connect_ssh 1 connect 2 connect_tls 3 connect_uds
+             pos / kw / mp: VL [] absent | VL [VL []] None | VL [VL [VN ms]] a number;   cfg: VL [] | VL [VN ms]
+             -> VL [wait; manager timeout]   wait: VL [] Event.wait(None) | VL [VN ms];  manager timeout: VL [] None | VL [VN ms] *)
+From NC Require Import Model.Base Model.Caps Model.Writer Model.Negotiate Model.NegotiateSched Model.HelloWait.
 
 Definition unVB (v : val) : bytes := match v with VB b => b | _ => [] end.
 Definition unVBs (v : val) : list bytes := match v with VL l => map unVB l | _ => [] end.
@@ -106,6 +110,14 @@ Definition enc_wpc (w : wpc) : N :=
   | WErr0 _ _ => 8 | WSet _ => 9 | WRaised _ => 10 | WClosing => 11 | WExiting => 12 | WDone => 13
   end.
 
+Definition un_pyopt (v : val) : option pyval :=
+  match v with VL [VL [VN t]] => Some (PNum t) | VL [VL []] => Some PNone | _ => None end.
+Definition un_nopt (v : val) : option N := match v with VL [VN t] => Some t | _ => None end.
+Definition un_entry (n : N) : entry :=
+  match n with 0 => EConnectSsh | 1 => EConnect | 2 => EConnectTls | _ => EConnectUds end.
+Definition enc_wait (w : wait) : val := match w with Bounded t => VL [VN t] | Unbounded => VL [] end.
+Definition enc_pyval (p : pyval) : val := match p with PNum t => VL [VN t] | PNone => VL [] end.
+
 Definition run (v : val) : val :=
   match v with
   | VL [VN 1; sv; cl] =>
@@ -133,5 +145,8 @@ Definition run (v : val) : val :=
                      enc_base (f_base s); vbool (f_pending s); vbool (f_lis s); vbool (f_ev s); vbool (f_conn s);
                      VN (enc_wpc (f_w s)); enc_res (f_err s); VL (map VN (f_q s))]
       end
+  | VL [VN 7; VN e; pos; kw; mp; cfg] =>
+      let a := {| a_pos := un_pyopt pos; a_kw := un_pyopt kw; a_mp := un_pyopt mp; a_cfg := un_nopt cfg |} in
+      VL [enc_wait (hello_wait (un_entry e) a); enc_pyval (manager_timeout a)]
   | _ => verr 1
   end.
